@@ -4,11 +4,17 @@ import BareProofs.C01Exact
 /-!
 # Helper lemmas for C01 — T3 (ticked erasure)
 
-* environments: `vis` (entries with generated names removed), `Keep` (generated entries preserved), `Env.set` algebra;
-* the relations between a machine-side state and a pure-side state (`StRel`, `LRel`), "eventually" (`Ev`);
-* frame lemmas: `evalExpr` / `runTree` of code that mentions no generated name are insensitive to generated-name
-  bindings and preserve them;
-* syntactic hypotheses (`NoReserved…`, `NoInclude…`, `NoWhileContinue…`, `LoopNested…`) and the combined checker `okS`.
+* environments: `vis` (entries with generated names removed), `Keep` / `KeepAll` (generated entries preserved), `Env.set`
+  algebra; the relations between a machine-side state and a pure-side state (`StRel`, `LRel`); "eventually" (`Ev`);
+* **frame lemmas** `evalExpr_sim`, `runTree_sim`: code that mentions no generated name is insensitive to generated-name
+  bindings and preserves them; parametric in a pair of related call runners (`CallSimG`), used in both directions;
+  `evalExpr_cfg`, `runTree_cfg`: the evaluator only looks at `host`, `builtins`, `debug` of the configuration;
+* the combined syntactic checker `okS / okB / okE`, the outcome relation `TSim` of the forward direction and its toolkit
+  (`tsim_tick`: ticks are invisible; `tsim_stmtExpr`, `tsim_stmtCond`, `tsim_skip`, `tsim_andThen`);
+* both semantics in combinator form (`execSS_…`, `forS_succ`, `execTS_…`), the helper expressions of `for`, the invariant
+  `ForInv`;
+* converse direction: the iteration bound of `loopW` / `loopF` is never binding (`loopW_irrel`, `loopF_irrel`, `loopW1`,
+  `loopF1`), convergence of the ticked side (`TConv`, `ORel`, `CSim`) and its toolkit (`csim_…`).
 -/
 
 set_option linter.unusedSimpArgs false
@@ -940,13 +946,17 @@ the label counter at `i0` (the value the script-wide counter had when the parser
 def lowerDef (i0 : Nat) (d : SFuncDef) : FuncDef :=
   { name := d.name, args := d.args, lastArgArray := d.lastArgArray, body := (lowerB none d.body i0).1 }
 
-/-- `cfg` (machine) and `scfg` (pure) describe the same host, and the machine's function table is the lowering of the
-structured one (`TablesAgree`) -/
+/-- the machine's function table is the lowering of the structured one; `start id` = the value of the script-wide label
+counter where definition `id` was lowered -/
+abbrev TablesAgree (cfg : Config W) (scfg : SConfig W) (start : FnId → Nat) : Prop :=
+  ∀ id, cfg.funs id = (scfg.sfuns id).map (lowerDef (start id))
+
+/-- `cfg` (machine) and `scfg` (pure) describe the same host, and the tables agree -/
 structure Agree (cfg : Config W) (scfg : SConfig W) (start : FnId → Nat) : Prop where
   host : scfg.host = cfg.host
   builtins : scfg.builtins = cfg.builtins
   debug : scfg.debug = cfg.debug
-  funs : ∀ id, cfg.funs id = (scfg.sfuns id).map (lowerDef (start id))
+  funs : TablesAgree cfg scfg start
 
 /-! ## the pure semantics in combinator form -/
 
